@@ -32,7 +32,7 @@ structure DecOK (cfg : Cfg) (inp : List Writer.Sample) (dec : Decisions) : Prop 
   shape : dec.pieces.length = inp.length
   samples : ∀ x ∈ List.zip inp dec.pieces, SampleOK cfg.k x.1 x.2
   nodup : (dec.groups.map (·.id)).Nodup
-  groups : ∀ G ∈ dec.groups, G.id < 2 ^ 32 ∧ G.members ≠ [] ∧
+  groups : ∀ G ∈ dec.groups, G.id < 2 ^ 32 ∧ G.members ≠ [] ∧ G.members.length + 1 < 2 ^ 31 ∧
     ∀ rj ∈ List.zipIdx G.members, ∃ d, lookup3 dec.pieces rj.1 = some d ∧ d.group = G.id ∧ d.slot = rj.2
   pieces : ∀ rd ∈ allRefs dec, ∃ G, Writer.findGroup dec rd.2.group = some G ∧ G.members[rd.2.slot]? = some rd.1
   total : (allRefs dec).length + 1 < 2 ^ 31
@@ -50,8 +50,8 @@ theorem decOK_of (cfg : Cfg) (inp : List Writer.Sample) (dec : Decisions) (h : D
     obtain ⟨⟨⟨⟨b1, b2⟩, b3⟩, b4⟩, b5⟩ := a4 y hy
     exact ⟨b1, b2, b3, b4, b5⟩
   · intro G hG
-    obtain ⟨⟨a1, a2⟩, a3⟩ := h10 G hG
-    refine ⟨a1, a2, ?_⟩
+    obtain ⟨⟨⟨a1, a2⟩, a2'⟩, a3⟩ := h10 G hG
+    refine ⟨a1, a2, a2', ?_⟩
     intro rj hrj
     have := a3 rj hrj
     cases hl : lookup3 dec.pieces rj.1 with
@@ -335,5 +335,59 @@ theorem contig_bases (cfg : Cfg) (inp : List Writer.Sample) (dec : Decisions) (z
   unfold descOf
   rw [hids, ← hGid, ← hPid]
   exact this
+
+theorem outs_ids (cfg : Cfg) (zc : Nat → List Nat → List Nat) (stored : List (List (List (List Nat))))
+    (gs : List GroupDec) (outs : List GroupOut) (hw : writeGroups cfg zc stored gs = some outs) :
+    outs.map (·.id) = gs.map (·.id) := by
+  obtain ⟨hol, hwat⟩ := writeGroups_at cfg zc stored gs outs hw
+  apply List.ext_getElem (by simp [hol])
+  intro t ht1 ht2
+  simp only [List.getElem_map]
+  obtain ⟨dt, Pt, _, hpt, hot⟩ := hwat t (by simpa using ht2) (by simpa using ht1)
+  rw [hot]
+  exact planGroup_spec_id cfg.minMatch _ dt Pt hpt
+
+/-- the group, plan and id behind the descriptor of one piece -/
+theorem piece_plan (cfg : Cfg) (inp : List Writer.Sample) (dec : Decisions) (zc : Nat → List Nat → List Nat)
+    (outs : List GroupOut) (hok : DecOK cfg inp dec) (hcodes : codesOK inp)
+    (hw : writeGroups cfg zc (storedAll cfg.k inp dec) dec.groups = some outs)
+    (s c j : Nat) (dcs : List (List PieceDec)) (ds : List PieceDec) (d : PieceDec)
+    (h3 : dec.pieces[s]? = some dcs) (h4 : dcs[c]? = some ds) (h5 : ds[j]? = some d) :
+    ∃ G datas P, G ∈ dec.groups ∧ G.id = d.group ∧ G.id < 2 ^ 32 ∧
+      G.members.mapM (lookup3 (storedAll cfg.k inp dec)) = some datas ∧
+      planGroup cfg.minMatch G datas = some P ∧ idsOf outs d.group = P.ids ∧
+      d.slot < datas.length ∧ datas.length + 1 < 2 ^ 31 ∧ P.ids.getD d.slot 0 ≤ datas.length := by
+  obtain ⟨hol, hwat⟩ := writeGroups_at cfg zc _ _ _ hw
+  obtain ⟨G, hfG, hmem⟩ := hok.pieces _ (mem_allRefs dec s c j dcs ds d h3 h4 h5)
+  simp only [] at hfG hmem
+  have hGin : G ∈ dec.groups := List.mem_of_find?_eq_some hfG
+  have hGid : G.id = d.group := by
+    have := List.find?_some hfG
+    simpa using this
+  obtain ⟨gi, hgi, rfl⟩ := List.getElem_of_mem hGin
+  obtain ⟨datas, P, hdat, hplan, hout⟩ := hwat gi hgi (by omega)
+  obtain ⟨hdl, hdall⟩ := mapM_option_spec _ _ _ hdat
+  obtain ⟨hPid, _, _, hseg⟩ := planGroup_spec cfg.minMatch _ datas P hplan (by
+    intro x hx
+    obtain ⟨t, ht', rfl⟩ := List.getElem_of_mem hx
+    exact stored_ok cfg inp dec hok hcodes _ _ (hdall t (by omega) ht'))
+  have hslot : d.slot < dec.groups[gi].members.length := by
+    apply Classical.byContradiction
+    intro hc
+    rw [List.getElem?_eq_none (by omega)] at hmem
+    cases hmem
+  have hids : idsOf outs d.group = P.ids := by
+    unfold idsOf
+    have hmapid := outs_ids cfg zc _ _ _ hw
+    have hoid : outs[gi].id = dec.groups[gi].id := by
+      have := congrArg (fun l => l[gi]?) hmapid
+      simpa [List.getElem?_map, List.getElem?_eq_getElem hgi, List.getElem?_eq_getElem (show gi < outs.length by omega)] using this
+    have := find_by_id outs gi (by omega) (by rw [hmapid]; exact hok.nodup)
+    rw [hoid, hGid] at this
+    rw [this, hout]
+    rfl
+  have hG := hok.groups _ hGin
+  exact ⟨_, datas, P, hGin, hGid, hG.1, hdat, hplan, hids, by omega, by rw [hdl]; exact hG.2.2.1,
+    (hseg d.slot (by omega)).1⟩
 
 end Ragc.WriterLemmas
